@@ -261,6 +261,10 @@ impl StateMachine<'_> {
             // As for the paths taken from the ---/+++ lines.
             utils::path::relativize_path_maybe(&mut name, self.config);
             let line = format!("{}{}", label, format_file(&name));
+            // The header of this file has been written now: a later call (e.g. at the `diff`
+            // line of the next file, after a commit line in between) must not write it again.
+            self.handled_diff_header_header_line_file_pair
+                .clone_from(&self.current_file_pair);
             write_generic_diff_header_header_line(
                 &line,
                 &line,
